@@ -529,4 +529,3 @@ func (k *c14Case) checkDiffer(merged prolly.Map) {
 	}
 }
 
-var _ = rand.Int
